@@ -553,11 +553,15 @@ is_default_constructible(CPPVisibility min_vis) const {
       return false;
     }
 
-    return true;
+    if ((constructor->_storage_class & CPPInstance::SC_defaulted) == 0) {
+      return true;
+    }
+    // An explicitly defaulted constructor is deleted under the same
+    // conditions as an implicit one, so check those below.
   }
 
   // Does it have constructors at all?  If so, no implicit one is generated.
-  if (get_constructor() != nullptr) {
+  if (constructor == nullptr && get_constructor() != nullptr) {
     return false;
   }
 
@@ -620,11 +624,16 @@ is_copy_constructible(CPPVisibility min_vis) const {
       return false;
     }
 
-    return true;
+    if ((constructor->_storage_class & CPPInstance::SC_defaulted) == 0) {
+      return true;
+    }
+    // An explicitly defaulted constructor is deleted under the same
+    // conditions as an implicit one, so check those below.
   }
 
-  if (get_move_constructor() != nullptr ||
-      get_move_assignment_operator() != nullptr) {
+  if (constructor == nullptr &&
+      (get_move_constructor() != nullptr ||
+       get_move_assignment_operator() != nullptr)) {
     // A user-declared move constructor or move assignment operator means that
     // the implicitly-declared copy constructor is deleted.
     return false;
